@@ -17,7 +17,6 @@ LEVEL = 'proof'
 MIN_OBLIGATIONS = 80
 lower = UF('str.lower', StrS, StrS)
 count = UF('str.count', StrS, StrS, IntS)
-PatLen = UF('extract_pattern_length', StrS, IntS)
 
 PATTERN_FUNCS = ['contains', 'regex', 'normalized', 'startswith', 'fuzzy', 'anyof']
 KIND_NAMES = ['amount', 'date', 'month', 'year', 'day', 'weekday', 'source']
@@ -207,15 +206,15 @@ def harnesses(tier):
 
 ORACLES = [
     {'name': 'small-scope rule files in most_specific mode against a hand-keyed ranking specification (all orders of each rule set)',
-     'script': 'C09.py', 'bound': 'all ordered rule lists of length <= 3 (quick) / 4 (thorough) over a pool of 16 rules with hand-written keys, 7 transactions'},
+     'script': 'C09.py', 'bound': 'all ordered rule lists of length <= 3 (quick) / 4 (thorough) over a pool of 23 rules with hand-written keys (7 of them differing in ranking only), 8 transactions; legacy CSV in most_specific mode'},
 ]
 TRUSTED_BASE = [
     'pyvc symbolic executor', 'z3 5.1.0 / cvc5 1.0.3',
     'max(list, key) returns the first element with a maximal key; tuples compare lexicographically (models of builtins)',
-    'str.count, str.lower, `in` on strings and the regex-based _extract_pattern_length are uninterpreted (A5, A6)',
+    'parse_expression, ast.walk and the fields of the parsed expression (func, id, args, value, attr), str.lower and len of a string constant are uninterpreted (A5): the key is proved relative to the tree the parser returns',
     'callee contracts at the call sites of match()',
 ]
-ASSUMPTIONS = ['"kinds of constraints" is read as the implementation\'s textual keyword count (DESIGN.md section 8)', 'A12 purity of rule evaluation']
+ASSUMPTIONS = ['the ranking key is read from the parsed match expression: pattern conditions = calls of a pattern function, constraint kinds = distinct constraint names used as values (field.<x> one kind), pattern text = string literal arguments of the pattern calls', 'A12 purity of rule evaluation']
 EXPLANATION = ('calculate_specificity proved equal to the ranking key of the statement; match() in most_specific mode proved to return the ArgMax '
                '(first maximal key) of the matching categorizing rules via loop invariants over Filt/Sel ghosts; first-max and adjacent-swap lemmas '
                'by induction. Bounded stand-in (labelled): all orders of small rule sets on the real loader/matcher.')
